@@ -49,6 +49,8 @@ type kitServeCfg struct {
 	AfterServe string `json:"after_serve,omitempty"`
 	// Marker: file written by deferred cleanup after Serve returned (proves graceful exit).
 	Marker string `json:"marker,omitempty"`
+	// NoMuxAdvert: behave like a plugin built before broker multiplexing existed: ignore PLUGIN_MULTIPLEX_GRPC
+	NoMuxAdvert bool `json:"no_mux_advert,omitempty"`
 	// PreServe: "" | "exit:<code>" | "sleep:<ms>" | "print:<hex bytes>" (then continue) | "printexit:<hex>" | "printhang:<hex>"
 	PreServe string `json:"pre_serve,omitempty"`
 }
@@ -103,6 +105,9 @@ func pluginKit(args []string) {
 		time.Sleep(time.Hour)
 	case hasPrefix(cfg.PreServe, "print:"):
 		os.Stdout.Write(unhx(cfg.PreServe[6:]))
+	}
+	if cfg.NoMuxAdvert {
+		os.Unsetenv("PLUGIN_MULTIPLEX_GRPC")
 	}
 	vp, legacy := kitSets(&cfg)
 	sc := &plugin.ServeConfig{
